@@ -482,7 +482,13 @@ func checkC16(c *Check, p *Program) {
 				continue
 			}
 			ctor := e.Caller
+			// the channel argument: the receiver's channel-typed parameter (the last one when there are several)
 			ch := g.Common().Args[len(g.Common().Args)-1]
+			for i, prm := range recv.Params {
+				if _, isCh := prm.Type().Underlying().(*types.Chan); isCh && i < len(g.Common().Args) {
+					ch = g.Common().Args[i]
+				}
+			}
 			mc, _ := stripConv(ch).(*ssa.MakeChan)
 			// the same channel is stored in the returned socket
 			stored := false
@@ -1032,7 +1038,7 @@ func checkSocketSend(c *Check, p *Program, rule string) {
 				}
 			case *ssa.UnOp:
 				if f := loadedField(x); f != nil && x.Op == token.MUL {
-					if pa := addrPath(x.X); pa.Root == ssa.Value(fn.Params[0]) && f.Name() != "conn" && f.Name() != "addr" {
+					if pa := addrPath(x.X); pa.Root == ssa.Value(fn.Params[0]) && f.Name() != "conn" && f.Name() != "addr" && !onlyAtomicUses(x, 0) {
 						shared = "reads the socket's field " + f.Name() + " (state shared between concurrent senders) at " + p.InstrPos(x)
 					}
 				}
